@@ -63,6 +63,9 @@ def check(run):
         run.violation("c12:%s" % (f.get("srepr") or f.get("spec")), f["error"][:900],
                       {"harness": "rt_c12.py", "payload": {"mode": "specs", "specs": [f["spec"]], "workers": 1,
                                                            "hashseeds": [0, 1, 12345] if "hashseed" in f else []}})
+    from vlib import deductive as D
+    sfailed = D.symtab_obligations(run)
+    D.report_structural(run, sfailed, "symtab", "pyvc/symtab.py")
     return run.finish("exploration", META["text"], CHECKER,
                       rule="cases = distinct built expressions (by srepr) that were printed and read back; distinct_nontrivial = those defined at >= 1 of the "
                            "5 sample points (compared there with both readers); the cross-interpreter purity pass re-uses the same expressions and adds cases only")
